@@ -78,7 +78,8 @@ def positions(shape, data):
                 pos_val(f, 0, o["v"][i], path + [f["key"]])
 
     def pos_val(f, lvl, x, path):
-        out.append({"path": path, "fam": f["fam"] if lvl == 0 else "", "null": x["t"] == "n", "nonnull": f["nn"][lvl], "val": x})
+        out.append({"path": path, "fam": f["fam"] if lvl == 0 else "", "rc": f.get("rc", f["fam"]) if lvl == 0 else "",
+                    "null": x["t"] == "n", "nonnull": f["nn"][lvl], "val": x})
         if x["t"] == "n":
             return
         if lvl < len(f["nn"]) - 1:
@@ -124,6 +125,10 @@ def redact(v, shape_positions_denied_paths, path=()):
     return v["v"]
 
 
+def denied(p, deny):
+    return p["fam"] in deny or p["rc"] in deny
+
+
 def is_prefix(p, q):
     return len(p) <= len(q) and list(q[:len(p)]) == list(p)
 
@@ -143,23 +148,27 @@ def keys_for(prop, case, res, op, base_cum):
         fams = set()
         for cum in res["cum"] + res["orph"]:
             for p in positions(shape, cum):
-                if p["fam"] in deny and not p["null"]:
-                    fams.add(p["fam"])
+                if denied(p, deny) and not p["null"]:
+                    fams.add(p["fam"] if p["fam"] in deny else "split=" + p["rc"])
         for f in sorted(fams) or ["?"]:
-            keys.append(("NoDeniedValue:%s:%s:%s:%s" % (mode, delivery, oid, f),
-                         "denied family %s is delivered with a non-null value" % f))
+            cls = "split-family:" if f.startswith("split=") else ""
+            keys.append(("NoDeniedValue:%s:%s%s:%s:%s" % (mode, cls, delivery, oid, f),
+                         "denied %s is delivered with a non-null value" % f))
     elif prop == "DenialReported":
         errs = [e["path"] for e in res["errors"] if e["haspath"]]
         final = positions(shape, res["cum"][-1]) if res["cum"] else []
         fpaths = {tuple(p["path"]): p for p in final}
         basepos = positions(shape, base_cum)
         for b in basepos:
-            if b["fam"] not in deny:
+            if not denied(b, deny):
                 continue
+            if b["fam"] not in deny:
+                b = dict(b, fam="split=" + b["rc"])
             bp = tuple(b["path"])
             if bp in fpaths:
                 if list(bp) not in errs:
-                    keys.append(("DenialReported:%s:visible-without-error:%s:%s:%s" % (delivery, mode, oid, b["fam"]),
+                    cls = "%s:split-family:" % mode if b["fam"].startswith("split=") else ""
+                    keys.append(("DenialReported:%s%s:visible-without-error:%s:%s:%s" % (cls, delivery, mode, oid, b["fam"]),
                                  "denied position %s is %s but no error carries its path" % (
                                      "/".join(bp), "nulled" if fpaths[bp]["null"] else "delivered with a value")))
                 continue
@@ -194,20 +203,20 @@ def keys_for(prop, case, res, op, base_cum):
         for s in sorted(seen) or ["?"]:
             keys.append(("NullPropagates:%s:%s:%s:%s" % (mode, delivery, oid, s), "null at the non-null position %s" % s))
     elif prop == "NullPropagatesExact":
-        keys.append(("NullPropagatesExact:%s:%s:deny=%s" % (mode, oid, "+".join(sorted(deny))),
+        keys.append(("NullPropagatesExact:%s:%s%s:deny=%s" % (mode, "split-family:" if case.get("split") else "", oid, "+".join(sorted(deny))),
                      "data differs from the reference execution with authorization: %s" % res["final"][:300]))
     elif prop == "PrefetchRule":
         deferfams = set(op["deferfams"])
         for r in res["requests"]:
             roots = r["root_fams"]
-            denied = [x for x in roots if x in deny]
+            denied_roots = [x for x in roots if x in deny]
             stage = "defer-group" if delivery == "defer" and roots and all(x in deferfams for x in roots) else "primary"
-            if mode == "batch" and roots and len(denied) == len(roots):
+            if mode == "batch" and roots and len(denied_roots) == len(roots):
                 keys.append(("PrefetchRule:%s:%s:%s:all-denied:%s:%s" % (mode, stage, r["kind"], oid, "+".join(roots)),
                              "%s request to %s sent although all of its root fields %s are denied" % (r["kind"], r["sg"], roots)))
-            elif r["kind"] != "query" and denied:
+            elif r["kind"] != "query" and denied_roots:
                 keys.append(("PrefetchRule:%s:%s:%s:any-denied:%s:%s" % (mode, stage, r["kind"], oid, "+".join(roots)),
-                             "%s request to %s sent although its root fields %s are denied" % (r["kind"], r["sg"], denied)))
+                             "%s request to %s sent although its root fields %s are denied" % (r["kind"], r["sg"], denied_roots)))
         if not keys:
             keys.append(("PrefetchRule:%s:?:%s" % (mode, oid), "TLC rejected PrefetchRule"))
     else:
@@ -253,7 +262,8 @@ def run(ctx):
     ctx.run_bin(binary, ["-mode", "shape", "-in", ctx.path("ops.ndjson"), "-out", ctx.path("shapes.ndjson")], timeout=300)
     shapes = {s["id"]: s for s in lib.read_ndjson(ctx.path("shapes.ndjson"))}
     text = {m["id"]: m["text"] for m in menu}
-    lib.write_ndjson(ctx.path("ops_gen.ndjson"), [{"id": s["id"], "kind": s["kind"], "defer": s["defer"], "fams": s["fams"]} for s in shapes.values()])
+    lib.write_ndjson(ctx.path("ops_gen.ndjson"), [{"id": s["id"], "kind": s["kind"], "defer": s["defer"], "fams": s["fams"], "splits": s["splits"]}
+                                                  for s in shapes.values()])
     maxp = 3 if quick or ctx.replay_in else 4
     g = ctx.tlc_must_pass("resolve", "Gen_Authz", "Gen_Authz_%d.cfg" % maxp, workers=1, timeout=1200, heap="6g",
                           env={"PHASE": "cases", "OPS": ctx.path("ops_gen.ndjson")}, tag="gen-cases")
@@ -263,6 +273,8 @@ def run(ctx):
         c["deny"] = sorted(c["deny"])
         gen[lib.sha(c)] = c
     gen = sorted(gen.values(), key=lambda c: json.dumps(c, sort_keys=True))
+    splits = [c for c in gen if c["split"]]
+    gen = [c for c in gen if not c["split"]]
     small = [c for c in gen if len(c["P"]) <= (2 if quick else 3)]
     big = [c for c in gen if len(c["P"]) > (2 if quick else 3)]
     rng.shuffle(big)
@@ -270,19 +282,20 @@ def run(ctx):
         # bin/check C14 --replay <file>: only the recorded case (it must be one the generator produces)
         with open(ctx.replay_in) as f:
             rc = json.load(f)["case"]["case"]
-        chosen = [c for c in gen if c["op"] == rc["op"] and c["P"] == sorted(rc["P"]) and c["deny"] == sorted(rc["deny_fams"])
+        chosen = [c for c in gen + splits if c["op"] == rc["op"] and c["P"] == sorted(rc["P"]) and c["deny"] == sorted(rc["deny_fams"])
                   and c["mode"] == rc["mode"] and c["delivery"] == rc["delivery"]]
-        if not chosen:
+        if not chosen and not rc["op"].startswith("synth"):
             raise lib.Inconclusive("the case of %s is not produced by the generator" % ctx.replay_in)
     elif quick:
         # |P| <= 2 with P = Deny or one allowed decoy is kept in full; the remaining |P| = 2 and |P| = 3 cases are sampled
         keep = [c for c in small if len(c["P"]) <= 1 or len(c["deny"]) >= 1]
         rest = [c for c in small if c not in keep]
         rng.shuffle(rest)
-        chosen = keep + rest[:600] + big[:1800]
+        rng.shuffle(splits)
+        chosen = keep + rest[:600] + big[:1500] + [c for c in splits if len(c["P"]) == 1] + [c for c in splits if len(c["P"]) > 1][:700]
     else:
-        chosen = small + big
-    ctx.log("generator: %d cases (|P| <= %d), %d chosen" % (len(gen), maxp, len(chosen)))
+        chosen = small + big + splits
+    ctx.log("generator: %d cases (|P| <= %d) + %d split-family cases, %d chosen" % (len(gen), maxp, len(splits), len(chosen)))
     # ---- 3. replay -----------------------------------------------------------------------------
     cases = []
     bases = {}
@@ -298,11 +311,46 @@ def run(ctx):
         t = text[c["op"]] if c["delivery"] == "defer" else strip_defer(text[c["op"]])
         cases.append({"id": "c%06d" % i, "op": c["op"], "text": t, "vars": "",
                       "protect": sorted({x for f in c["P"] for x in s["famcoords"][f]}),
-                      "deny": sorted({x for f in c["deny"] for x in s["famcoords"][f]}),
-                      "mode": c["mode"], "fresh": s["kind"] != "query", "delivery": c["delivery"], "deny_fams": c["deny"], "P": c["P"]})
+                      "deny": sorted({x for f in c["deny"] for x in s["famcoords"].get(f, [f])}),
+                      "mode": c["mode"], "fresh": s["kind"] != "query", "delivery": c["delivery"], "deny_fams": c["deny"], "P": c["P"],
+                      "split": c["split"]})
     lib.write_ndjson(ctx.path("cases.ndjson"), cases)
     ctx.run_bin(binary, ["-mode", "run", "-in", ctx.path("cases.ndjson"), "-out", ctx.path("results.ndjson"), "-par", "8"], timeout=2400)
     results = {r["id"]: r for r in lib.read_ndjson(ctx.path("results.ndjson"))}
+    # ---- 3b. synthetic plans at the resolve level (several root fields in one mutation / subscription request) ----
+    g = ctx.tlc_must_pass("resolve", "Gen_Authz", "Gen_Authz_1.cfg", workers=1, timeout=600, env={"PHASE": "synth", "OPS": ""}, tag="gen-synth")
+    synth_in = []
+    nsynth = 0
+    for c in sorted(g.printed, key=lambda c: json.dumps(c, sort_keys=True)):
+        o = c["synth"]
+        oid = "synth:%s:%s:%s" % (o["kind"], "+".join(str(x) for x in o["layout"]), "nn1" if o["nnfirst"] else "nullable")
+        root = {"query": "Query", "mutation": "Mutation", "subscription": "Subscription"}[o["kind"]]
+        n = sum(o["layout"])
+        if oid not in shapes:
+            fams = ["%s.f%d" % (root, i) for i in range(1, n + 1)]
+            shapes[oid] = {"id": oid, "kind": o["kind"], "defer": False, "fams": fams, "famcoords": {f: [f] for f in fams}, "deferfams": [], "splits": [],
+                           "multi_root": o["kind"] != "query",
+                           "shape": {"v": [{"types": [root], "fields": [
+                               {"key": "f%d" % i, "fam": "%s.f%d" % (root, i), "rc": "%s.f%d" % (root, i), "name": "f%d" % i,
+                                "nn": [o["nnfirst"] and i == 1], "leaf": True, "obj": {"v": []}} for i in range(1, n + 1)]}]}}
+            text[oid] = "hand-built plan: %s, root fields per request %s%s" % (o["kind"], o["layout"], ", f1 non-null" if o["nnfirst"] else "")
+            bid = "base|%s|sync" % oid
+            bases[(oid, "sync")] = bid
+            b = {"id": bid, "op": oid, "text": text[oid], "protect": [], "deny": [], "mode": "none", "delivery": "sync", "deny_fams": [], "P": [], "split": ""}
+            cases.append(b)
+            synth_in.append(dict(b, kind=o["kind"], layout=o["layout"], nnfirst=o["nnfirst"]))
+        if ctx.replay_in and not (rc["op"] == oid and sorted(rc["P"]) == sorted("%s.f%d" % (root, i) for i in c["P"])
+                                  and sorted(rc["deny_fams"]) == sorted("%s.f%d" % (root, i) for i in c["deny"]) and rc["mode"] == c["mode"]):
+            continue
+        sc = {"id": "s%06d" % nsynth, "op": oid, "text": text[oid], "protect": sorted(c["P"]), "deny": sorted(c["deny"]), "mode": c["mode"],
+              "delivery": "sync", "deny_fams": sorted("%s.f%d" % (root, i) for i in c["deny"]), "P": sorted("%s.f%d" % (root, i) for i in c["P"]), "split": ""}
+        nsynth += 1
+        cases.append(sc)
+        synth_in.append(dict(sc, kind=o["kind"], layout=o["layout"], nnfirst=o["nnfirst"]))
+    lib.write_ndjson(ctx.path("synth.ndjson"), synth_in)
+    ctx.run_bin(binary, ["-mode", "synth", "-in", ctx.path("synth.ndjson"), "-out", ctx.path("synth-results.ndjson")], timeout=600)
+    results.update({r["id"]: r for r in lib.read_ndjson(ctx.path("synth-results.ndjson"))})
+    ctx.log("synthetic plans: %d cases" % nsynth)
     if len(results) != len(cases):
         raise lib.Inconclusive("driver returned %d results for %d cases" % (len(results), len(cases)))
     by_id = {c["id"]: c for c in cases}
@@ -322,7 +370,8 @@ def run(ctx):
     for c in cases:
         r = results[c["id"]]
         for q in r["requests"]:
-            q["root_fams"] = [fam_of[c["op"]].get(x, x) for x in q["roots"]]
+            # a root field is named by its family, unless exactly its coordinate is the denied one of a split family
+            q["root_fams"] = [x if x in c["deny_fams"] else fam_of[c["op"]].get(x, x) for x in q["roots"]]
         if c["mode"] == "none":
             continue
         if r["panic"]:
@@ -346,7 +395,8 @@ def run(ctx):
                     continue
                 r = results[c["id"]]
                 f.write(json.dumps({"kind": "case", "id": c["id"], "deny": c["deny_fams"], "mode": c["mode"],
-                                    "exact": delivery == "sync" and s["kind"] == "query", "cum": r["cum"], "orph": r["orph"],
+                                    "exact": delivery == "sync" and s["kind"] == "query", "explain": not s.get("multi_root", False), "pathless": any(not e["haspath"] for e in r["errors"]),
+                                    "cum": r["cum"], "orph": r["orph"],
                                     "errs": [e["path"] for e in r["errors"] if e["haspath"]],
                                     "reqs": [{"kind": q["kind"], "roots": q["root_fams"]} for q in r["requests"]]}, separators=(",", ":")) + "\n")
                 order.append(c["id"])
@@ -389,7 +439,7 @@ def run(ctx):
         s = shapes[c["op"]]
         base = results[bases[(c["op"], c["delivery"])]]["cum"][-1]
         deny = set(c["deny_fams"])
-        denied_pos = [p for p in positions(s["shape"], base) if p["fam"] in deny and not p["null"]]
+        denied_pos = [p for p in positions(s["shape"], base) if denied(p, deny) and not p["null"]]
         if not denied_pos:
             continue
         corpus = redact(base, {tuple(p["path"]) for p in denied_pos}) + " " + c["text"] + " " + sdl_noise + " " + " ".join(s["fams"])
@@ -404,17 +454,18 @@ def run(ctx):
                 if len(v) < 3 or v in corpus or esc in corpus:
                     continue
                 sentinels_used += 1
+                pf = p["fam"] if p["fam"] in deny else "split=" + p["rc"]
                 if v in raw or esc in raw:
-                    hit.setdefault(p["fam"], v)
+                    hit.setdefault(pf, v)
                     continue
                 # partial leaks (truncated / embedded values): every WINDOW-character window of a long value
                 for i in range(0, max(0, len(v) - WINDOW + 1)):
                     w = v[i:i + WINDOW]
                     if w not in corpus and w in raw:
-                        hit.setdefault(p["fam"], w)
+                        hit.setdefault(pf, w)
                         break
         for fam, v in sorted(hit.items()):
-            ctx.violation("RawLeak:%s:%s:%s:%s" % (c["mode"], c["delivery"], c["op"], fam),
+            ctx.violation("RawLeak:%s:%s%s:%s:%s" % (c["mode"], "split-family:" if fam.startswith("split=") else "", c["delivery"], c["op"], fam),
                           "value %r of the denied family %s occurs in the bytes written to the client [%s deny=%s mode=%s delivery=%s]" % (
                               v, fam, c["op"], c["deny_fams"], c["mode"], c["delivery"]),
                           {"case": c, "frames": r["frames"], "sentinel": v})
